@@ -101,8 +101,7 @@ def run(tier, replay):
         sl, s3, t3, cmd3 = slots.enumerate_slots(os.path.join(d, "tlc_slots"))
         states += s3
         trans += t3
-        rng.shuffle(sl)
-        for (tn, fa, fb) in sl[: (250000 if tier == "thorough" else 30000)]:
+        for (tn, fa, fb) in slots.stratified(sl, rng, 250000 if tier == "thorough" else 12000):
             texts.append(("slot:" + tn, slots.program(tn, fa, fb)))
         # byte-level truncation of a few seeds, random bytes decoded as UTF-8, deep nesting, odd line endings
         for s in sd[:6]:
